@@ -1,7 +1,8 @@
 (* C04 — dispatch order: FIFO per queue; lowest priority number first, ties FIFO.
    This file holds only statements, each closed by [exact] of a lemma proved elsewhere. *)
 From Coq Require Import List NArith ZArith.
-From VQ Require Import Fifo FifoProofs Gen.Params.
+From Coq Require Import Permutation.
+From VQ Require Import Fifo FifoProofs Heap HeapProofs Gen.Params.
 Import ListNotations.
 Open Scope N_scope.
 
@@ -40,3 +41,52 @@ Example C04_fifo_example :
   let q := fold_left apply_op ops (new_queue 2 3) in
   qabs q = [7; 8] /\ caps q = [2; 3] /\ Forall op_ok ops.
 Proof. vm_compute. repeat split; repeat constructor. Qed.
+
+(* ---------------- priority queue ---------------- *)
+
+(* Dequeue on queues.PriorityQueue (container/heap.Pop over heapQueue.Less) returns an element
+   with the numerically smallest priority among the pending ones and, among those, the one
+   with the smallest insertion index; the index is the acceptance number (C04_prio_index). *)
+Theorem C04_prio_pop_is_least :
+  forall (A : Type) (q : pq A),
+    pq_ok q ->
+    match pop q with
+    | (None, q') => items q = [] /\ q' = q
+    | (Some v, q') =>
+        exists x, v = val x /\ In x (items q) /\
+                  (forall y, In y (items q) ->
+                     (prio x < prio y)%Z \/ (prio x = prio y /\ (idx x <= idx y)%N)) /\
+                  Permutation (x :: items q') (items q) /\ pq_ok q'
+    end.
+Proof. exact @pop_least. Qed.
+Print Assumptions C04_prio_pop_is_least.
+
+(* An accepted Enqueue adds exactly the new element, stamped with the current insertion
+   counter, which then grows by one; a closed queue rejects with no effect. *)
+Theorem C04_prio_index :
+  forall (A : Type) (q : pq A) (p : Z) (v : A),
+    pq_ok q ->
+    let '(ok, q') := push q p v in
+    ok = negb (pclosed q) /\ pq_ok q' /\ pclosed q' = pclosed q /\
+    if ok then Permutation (items q') (mkItem p (icount q) v :: items q) /\ icount q' = (icount q + 1)%N
+    else q' = q.
+Proof. exact @push_spec. Qed.
+Print Assumptions C04_prio_index.
+
+(* Every sequence of Enqueue / Dequeue / Purge / Close, of any length and with any
+   priorities: the values handed out are those of a list kept sorted by
+   (priority, acceptance number) — i.e. lowest priority number first, ties FIFO; the
+   acceptance counter survives Purge. *)
+Theorem C04_prio_refines_sorted_list :
+  forall (A : Type) (ops : list (@pqop A)),
+    snd (fold_left pq_step ops (new_pq, [])) = snd (fold_left spec_step ops (mkSpec [] 0 false, [])).
+Proof. exact @pq_run_refines. Qed.
+Print Assumptions C04_prio_refines_sorted_list.
+
+Example C04_prio_example :
+  snd (fold_left pq_step
+         [PPush 5 10; PPush (-3) 11; PPush 5 12; PPush (-3) 13; PPop; PPop; PPurge;
+          PPush 9223372036854775807 14; PPush (-9223372036854775808) 15; PPush 0 16; PPop; PPop; PPop; PPop]%Z
+         (new_pq, []))
+  = [Some 11; Some 13; Some 15; Some 16; Some 14; None]%Z.
+Proof. vm_compute. reflexivity. Qed.
